@@ -311,6 +311,7 @@ func runC05(c *core.Ctx) {
 	c.Floor("R05b", 9, "4 checked + 2 exempt call sites, 3 validated declaration types (+ constant root declaration)")
 	x.ruleClasses()
 	c.Floor("R05c", 3, "csv2, fixedlength2, edi")
+	c05Extra(c)
 }
 
 // ---------------------------------------------------------------- R05a.i
